@@ -87,7 +87,7 @@ Fixpoint parse_comp (fuel : nat) (us : list unit) : list wtok :=
                           | [] => (false, r) end in
         match take_class r1 true [] with
         | Some (body, rest) => WClass neg (class_members body) :: parse_comp f rest
-        | None => WLit 91 :: parse_comp f r
+        | None => WClass false [] :: parse_comp f r      (* no closing ']': git matches nothing *)
         end
       else WLit (fst u) :: parse_comp f r
     end
@@ -96,7 +96,17 @@ Fixpoint parse_comp (fuel : nat) (us : list unit) : list wtok :=
 Definition is_dstar (us : list unit) : bool :=
   match us with [a; b] => raw a 42 && raw b 42 | _ => false end.
 
+(* a backslash with nothing after it: git's wildmatch never matches such a pattern *)
+Fixpoint dangling (s : bytes) : bool :=
+  match s with
+  | [] => false
+  | b :: r =>
+    if (b =? 92)%N then match r with [] => true | _ :: r' => dangling r' end
+    else dangling r
+  end.
+
 Definition git_parse_line (line : bytes) : option gpat :=
+  if dangling line then None else
   match line with
   | 35%N :: _ => None
   | _ =>
